@@ -628,11 +628,15 @@ def get_temperature_implicit(
     return _vertical_matvec(weights, divergence)
   elif method == 'sparse':
     diag_weights = np.diag(weights)
-    up_weights = np.concatenate([[0], weights[1:, 0]])
-    down_weights = np.concatenate([weights[:-1, -1], [0]])
+    # weights[r, s] is proportional to layer_thickness[s], so only the weights
+    # per unit thickness are constant above and below the diagonal.
+    thickness = coordinates.layer_thickness
+    up_weights = np.concatenate([[0], weights[1:, 0] / thickness[0]])
+    down_weights = np.concatenate([weights[:-1, -1] / thickness[-1], [0]])
+    weighted_divergence = thickness[:, np.newaxis, np.newaxis] * divergence
     up_divergence = (
-        jax_numpy_utils.cumsum(divergence, axis=0, sharding=sharding)
-        - divergence
+        jax_numpy_utils.cumsum(weighted_divergence, axis=0, sharding=sharding)
+        - weighted_divergence
     )
     result = (
         up_weights[:, np.newaxis, np.newaxis] * up_divergence
@@ -641,8 +645,10 @@ def get_temperature_implicit(
     if (down_weights != 0).any():
       # down_weights is only non-zero for non-constant reference temperature
       down_divergence = (
-          jax_numpy_utils.reverse_cumsum(divergence, axis=0, sharding=sharding)
-          - divergence
+          jax_numpy_utils.reverse_cumsum(
+              weighted_divergence, axis=0, sharding=sharding
+          )
+          - weighted_divergence
       )
       result += down_weights[:, np.newaxis, np.newaxis] * down_divergence
     return result
